@@ -1,3 +1,9 @@
 def extend(add, NA, SIMNOTE):
-    for prop in ('C04', 'C11', 'C14', 'C19'):
+    for prop in ('C04', 'C11', 'C19'):
         NA[prop] = 'TEMPORARY: simulation check designed (DESIGN.md section 4) but not built yet; will be claimed once the check exists.'
+    add('C14', 'fault_enumeration',
+        'Seeded histories of write_env / crash at byte k / short writes with EIO or ENOSPC / failing opens / direct damage / restart / read_env judged against a reference model of the per-task files, '
+        'plus an enumeration of EVERY proper prefix (every crash point of the sequential writer) of each sampled environment file, read back through Env.from_file and read_env. '
+        'The truncation dimension is swept completely for the sampled files; payloads and fault sequences are sampled.',
+        'Trusted: the crash model (a killed sequential writer leaves a byte prefix, an empty or a NUL-filled file), the fault seam around open() in vsim/faultfs.py, pickle. Bit flips that still unpickle are out of scope (no checksum in the format, none claimed).',
+        'deterministic simulation of crash points and I/O faults on the environment files + exhaustive truncation enumeration', 'DESIGN.md 4 C14', 'vsim-faultfs')
